@@ -1,57 +1,22 @@
 package main
 
 import (
-	"encoding/hex"
 	"fmt"
-	"os"
+	"time"
 
 	"github.com/gopacket/gopacket"
 	"github.com/gopacket/gopacket/layers"
 )
 
-type dl interface {
-	gopacket.DecodingLayer
-	gopacket.SerializableLayer
-}
-
-func rt(name string, mk func() dl, in string) {
-	d, _ := hex.DecodeString(in)
-	cur := d
-	fmt.Println("==", name, in)
-	for i := 0; i < 3; i++ {
-		l := mk()
-		if err := l.DecodeFromBytes(cur, gopacket.NilDecodeFeedback); err != nil {
-			fmt.Println("  decode err:", err)
-			return
-		}
-		fmt.Printf("  l%d = %s\n", i, gopacket.LayerString(l.(gopacket.Layer)))
-		buf := gopacket.NewSerializeBuffer()
-		pl := l.LayerPayload()
-		b, _ := buf.AppendBytes(len(pl))
-		copy(b, pl)
-		if err := l.SerializeTo(buf, gopacket.SerializeOptions{FixLengths: true, ComputeChecksums: true}); err != nil {
-			fmt.Println("  ser err:", err)
-			return
-		}
-		cur = append([]byte(nil), buf.Bytes()...)
-		fmt.Printf("  b%d = %x\n", i+1, cur)
-	}
-}
-
 func main() {
-	which := os.Args[1]
-	switch which {
-	case "geneve":
-		rt("geneve", func() dl { return &layers.Geneve{} }, os.Args[2])
-	case "eap":
-		rt("eap", func() dl { return &layers.EAP{} }, os.Args[2])
-	case "radius":
-		rt("radius", func() dl { return &layers.RADIUS{} }, os.Args[2])
-	case "tls":
-		rt("tls", func() dl { return &layers.TLS{} }, os.Args[2])
-	case "llc":
-		rt("llc", func() dl { return &layers.LLC{} }, os.Args[2])
-	case "dns":
-		rt("dns", func() dl { return &layers.DNS{} }, os.Args[2])
-	}
+	d := make([]byte, 65535)
+	t := time.Now()
+	p := gopacket.NewPacket(d, layers.LayerTypeDot11MgmtAssociationResp, gopacket.Default)
+	fmt.Println("decode", time.Since(t), len(p.Layers()))
+	t = time.Now()
+	s := p.String()
+	fmt.Println("String", time.Since(t), len(s))
+	t = time.Now()
+	s = p.Dump()
+	fmt.Println("Dump", time.Since(t), len(s))
 }
